@@ -1,0 +1,18 @@
+//go:build verif
+
+// Contracts for package corazarules, checked by /verif/govc (comment-only file; no code).
+package corazarules
+
+// ---- matched-rule observers (C19)
+//@ func (*MatchedRule).Audit props C19,C07
+//@   modifies nothing
+//@   ensures result == mr.Audit_
+//@ func (*MatchedRule).Log props C19,C07
+//@   modifies nothing
+//@   ensures result == mr.Log_
+//@ func (*MatchedRule).MatchedDatas props C19,C07
+//@   modifies nothing
+//@   ensures result == mr.MatchedDatas_
+//@ func (*MatchedRule).TransactionID props C19,C07
+//@   modifies nothing
+//@   ensures result == mr.TransactionID_
